@@ -43,7 +43,7 @@ static Plan gen_sorter(const std::string &prop, const std::string &tier, uint64_
 	uint64_t d = r.below(10);
 	size_t mm = d < 2 ? 1 : d < 7 ? 16 + r.below(total / (1 + r.below(12)) + 32) : d < 9 ? total + 1000 : 0;
 	p.seti("maxmem", mm);
-	p.seti("pool", r.chance(1, 2) ? -1 : (long long)r.below(5));
+	p.seti("pool", r.chance(1, 2) ? -1 : (long long)(r.chance(1, 10) ? 5 + r.below(4) : r.below(5)));
 	p.set("sched", sched_cfg_gen(r, 1200));
 	p.seti("finish", r.chance(2, 3) ? 0 : 1);
 	p.seti("late", r.chance(2, 3) ? 1 : 0);
